@@ -3,9 +3,10 @@
 
    What is decided here: deadlock freedom on the traced locks, as a theorem about an abstract machine whose
    threads are constrained only by a lock nesting relation E (Conc/LockOrder.v), for ANY number of threads
-   and locks and any grant rule.  E is not assumed: it is extracted on every run from the running scheduler
-   by the tracing lock wrapper (pkg/locking, build tag verif) and `acyclic E = true` is evaluated by
-   vm_compute in the cases file (kind 1401 otherwise).  The theorem is unbounded; its input (E) is bounded by
+   and locks and any grant rule.  Edges carry the role of the goroutine; a role may be declared single (one
+   thread), and a cycle confined to one single role is harmless (refined check order_ok).  E is not assumed: it is extracted on every run from the running scheduler
+   by the tracing lock wrapper (pkg/locking, build tag verif) and `acyclic (untag E) = true` (else `order_ok`
+   with a rank certificate from the harness) is evaluated by vm_compute in the cases file (kind 1401 otherwise).  The theorem is unbounded; its input (E) is bounded by
    what the stress workloads exercised.  RW locks are treated like exclusive locks (conservative).
 
    What is NOT shown by this technique: absence of data races; absence of blocked goroutines under every
@@ -23,43 +24,57 @@ Proof. exact acyclic_sound. Qed.
 Print Assumptions c14_acyclic_sound.
 
 (* 2. Lock-order theorem: with an acyclic nesting relation no reachable state of the machine has a wait-for
-   cycle (threads t0..tn-1, each waiting for a lock held by the next). *)
-Theorem c14_acyclic_no_deadlock : forall E (can_grant : state -> thread -> lock -> Prop), acyclic E = true ->
-  forall s, reachable E can_grant s -> forall c, ~ wait_cycle s c.
+   cycle (threads t0..tn-1, each waiting for a lock held by the next) - whatever the roles of the threads. *)
+Theorem c14_acyclic_no_deadlock : forall E (role_of : thread -> role) (can_grant : state -> thread -> lock -> Prop),
+  acyclic (untag E) = true ->
+  forall s, reachable E role_of can_grant s -> forall c, ~ wait_cycle s c.
 Proof. exact acyclic_no_deadlock. Qed.
 Print Assumptions c14_acyclic_no_deadlock.
 
 (* 3. The same for deadlocked sets: no non-empty set of threads each waiting for a lock held inside the set. *)
-Theorem c14_acyclic_no_deadlocked_set : forall E (can_grant : state -> thread -> lock -> Prop), acyclic E = true ->
-  forall s, reachable E can_grant s -> forall D, ~ deadlocked s D.
+Theorem c14_acyclic_no_deadlocked_set : forall E (role_of : thread -> role) (can_grant : state -> thread -> lock -> Prop),
+  acyclic (untag E) = true ->
+  forall s, reachable E role_of can_grant s -> forall D, ~ deadlocked s D.
 Proof. exact acyclic_no_deadlocked_set. Qed.
 Print Assumptions c14_acyclic_no_deadlocked_set.
 
-(* 4. Progress: under any grant rule that grants free locks, a reachable state with finitely many active
+(* 4. Refined theorem: cycles are tolerated when all their edges stay on one level of a rank certificate and
+   belong to one role that has a single thread (a wait-for cycle needs two threads). *)
+Theorem c14_order_ok_no_deadlock : forall E (role_of : thread -> role) (can_grant : state -> thread -> lock -> Prop) single rk,
+  order_ok single rk E = true -> singles_respected role_of single ->
+  forall s, reachable E role_of can_grant s -> (forall D, ~ deadlocked s D) /\ (forall c, ~ wait_cycle s c).
+Proof. exact order_ok_no_deadlock_both. Qed.
+Print Assumptions c14_order_ok_no_deadlock.
+
+(* 5. Progress: under any grant rule that grants free locks, a reachable state with finitely many active
    threads in which some thread waits can move by a grant or a release (not only by a new request). *)
-Theorem c14_progress : forall E (can_grant : state -> thread -> lock -> Prop),
-  (forall s t l, free s l -> can_grant s t l) -> acyclic E = true ->
-  forall n s, reachable E can_grant s -> bounded n s ->
+Theorem c14_progress : forall E (role_of : thread -> role) (can_grant : state -> thread -> lock -> Prop),
+  (forall s t l, free s l -> can_grant s t l) -> forall single rk,
+  order_ok single rk E = true -> singles_respected role_of single ->
+  forall n s, reachable E role_of can_grant s -> bounded n s ->
   (exists t, waiting (s t) <> None) -> exists s', unblock can_grant s s'.
-Proof. exact acyclic_progress. Qed.
+Proof. exact order_ok_progress. Qed.
 Print Assumptions c14_progress.
 
-(* 5. The cycle printed in a replay is certified: a list accepted by is_cycle refutes the check. *)
+(* 6. The cycle printed in a replay is certified: a list accepted by is_cycle refutes the plain check. *)
 Theorem c14_cycle_certified : forall E c, is_cycle E c = true -> acyclic E = false /\ has_cycle E.
 Proof. exact cycle_certified. Qed.
 Print Assumptions c14_cycle_certified.
 
-(* 6. The oracle of the conc engine is the hypothesis of the theorem: for a run on which kind 1401 is not
-   reported, no program nesting its locks only as observed in that run can deadlock on them. *)
+(* 7. The oracle of the conc engine is the hypothesis of the theorem: for a run on which kind 1401 is not
+   reported, no program nesting its locks only as observed in that run (per role, one thread per single role)
+   can deadlock on them. *)
 Theorem c14_oracle_lock_order : forall c, ~ In 1401%N (conc_check_case c) ->
-  forall (can_grant : state -> thread -> lock -> Prop) s, reachable (cc_edges c) can_grant s ->
+  forall (role_of : thread -> role) (can_grant : state -> thread -> lock -> Prop),
+  singles_respected role_of (is_single c) ->
+  forall s, reachable (cc_edges c) role_of can_grant s ->
   (forall D, ~ deadlocked s D) /\ (forall cyc, ~ wait_cycle s cyc).
 Proof. exact oracle_lock_order. Qed.
 Print Assumptions c14_oracle_lock_order.
 
-(* 7. The hypothesis matters: with the classic inversion [(1,2); (2,1)] the check fails and the machine
+(* 8. The hypothesis matters: with the classic inversion [(1,2); (2,1)] the check fails and the machine
    reaches a wait-for cycle. *)
 Theorem c14_cyclic_can_deadlock :
-  acyclic badE = false /\ exists s, reachable badE excl_grant s /\ wait_cycle s [0; 1]%nat.
+  acyclic (untag badE) = false /\ exists s, reachable badE one_role excl_grant s /\ wait_cycle s [0; 1]%nat.
 Proof. exact cyclic_can_deadlock. Qed.
 Print Assumptions c14_cyclic_can_deadlock.
